@@ -360,6 +360,7 @@ pub struct CfgD {
 }
 
 pub const EXTRA_NS: &str = "Extra\"NS";
+pub const EXTRA_NS_EMPTY: &str = "ExtraEmpty";
 pub const EXTRA_DIM: &str = "XD";
 pub const EXTRA_METRIC: &str = "XM";
 
@@ -417,6 +418,11 @@ impl CfgD {
                     storage_resolution: Some(StorageResolution::Second),
                 }],
                 namespace: EXTRA_NS,
+            });
+            b = b.directive(MetricDirective {
+                dimensions: vec![vec![EXTRA_DIM]],
+                metrics: vec![],
+                namespace: EXTRA_NS_EMPTY,
             });
         }
         if let Some(lg) = &self.log_group {
